@@ -170,44 +170,40 @@ class CouplingLevyCopulaSimulation:
             axis_coordinates.remove(j)
             return self.__coupling_state(increment, axis_coordinates)
         else:
-            # projection on the axis defined by the indices in axis_coordinates
+            # projection on the axis defined by the indices in axis_coordinates; the other coordinates stay in the
+            # cell of their own (coarse) state
             position = grid.origin_coordinate + increment
             mass = self.coupling_process.model.mass
             value = grid[position]
             u = self.coupling_process._uniform.sample()
 
-            projected_position = CoordinateND(position[k] for k in axis_coordinates)
-            projected_value = tuple(value[k] for k in axis_coordinates)
-
-            projected_mid_left_value = grid.middle(
-                grid.left_point(projected_position), projected_value
-            )
-            projected_mid_right_value = grid.middle(
-                projected_value, grid.right_point(projected_position)
-            )
-            total_mass = mass(
-                projected_mid_left_value, projected_mid_right_value, axis_coordinates
-            )
+            mid_left_value = grid.middle(grid.left_point(position), value)
+            mid_right_value = grid.middle(value, grid.right_point(position))
+            total_mass = mass(mid_left_value, mid_right_value)
 
             probability = 0
             for p in product([-1, 1], repeat=len(axis_coordinates)):
-                p_value = grid[projected_position + p]
-                p_middle_value = grid.middle(p_value, projected_value)
-                min_max = tuple(
-                    (min(p1, p2), max(p1, p2))
-                    for p1, p2 in zip(projected_value, p_middle_value)
+                shift = [0] * dim
+                for k, pk in zip(axis_coordinates, p):
+                    shift[k] = pk
+                p_value = grid[position + shift]
+                p_middle_value = grid.middle(p_value, value)
+                p_left_value = tuple(
+                    min(value[k], p_middle_value[k])
+                    if k in axis_coordinates
+                    else mid_left_value[k]
+                    for k in range(dim)
                 )
-                p_left_value, p_right_value = zip(*min_max)
-                p_mass = mass(p_left_value, p_right_value, axis_coordinates)
+                p_right_value = tuple(
+                    max(value[k], p_middle_value[k])
+                    if k in axis_coordinates
+                    else mid_right_value[k]
+                    for k in range(dim)
+                )
+                p_mass = mass(p_left_value, p_right_value)
                 probability += p_mass / total_mass
                 if u <= probability:
-                    res = tuple(
-                        p_value[axis_coordinates.index(k)]
-                        if k in axis_coordinates
-                        else value[k]
-                        for k in range(dim)
-                    )
-                    return np.array(res)
+                    return np.array(p_value)
 
             raise ValueError(
                 "couplinglevycopula::__coupling_state -> Numerical error? probability={:6f}, u={:6f}".format(
